@@ -440,7 +440,7 @@ def py_specials(guard, elem):
         if isinstance(n, ast.If) and isinstance(n.test, ast.Compare) and len(n.test.ops) == 1 \
                 and isinstance(n.test.ops[0], ast.Eq):
             sides = [n.test.left, n.test.comparators[0]]
-            if any(isinstance(s, ast.Name) and s.id == elem for s in sides):
+            if any(isinstance(s, ast.Name) and (elem is None or s.id == elem) for s in sides):
                 for s in sides:
                     c = c43.chain(s) if isinstance(s, ast.Attribute) else None
                     if c and c[0] == "mujoco" and c[1][:1] == ["mjtState"] and len(c[1]) == 2:
@@ -660,7 +660,9 @@ def check_state(res, H, sources, classes, repo):
             raise AnalysisError(f"{SUPPORT_C}: mj_stateElemSize has no case for {el}")
         (ck, cf), cline = csize[el]
         if el not in pmap:
-            continue        # already reported by R-STATE-MAP
+            res.bad("R-STATE-SIZE", key, rel, fn.lineno, f"{el} has no entry in _STATE_MAP, so _state_elem_size raises "
+                    f"ValueError where C returns {ck}" + (f"*m->{cf}" if cf else ""))
+            continue
         kind, val = pe.run(fn, {params[0]: _Model(), params[1]: ("enum", "mjtState", el)})
         if kind == "raise":
             res.bad("R-STATE-SIZE", key, rel, fn.lineno, f"_state_elem_size raises {val} for {el}; C returns "
@@ -703,16 +705,17 @@ def check_state(res, H, sources, classes, repo):
             res.bad("R-STATE-ORDER", f"{pyf}:order", rel, pfn.lineno, f"{pyf} does not walk `for i in range(mjNSTATE): "
                     f"element = mjtState(1 << i); if element & spec` as {cfn} does: the concatenation order of the state "
                     f"vector is not established")
-            continue
-        loop, elem, guard = shape
-        res.ok("R-STATE-ORDER", f"{pyf}:order", {"c": f"{SUPPORT_C}:{clines[cfn]}", "mjx": f"{rel}:{loop.lineno}"})
+            elem, guard = None, pfn
+        else:
+            loop, elem, guard = shape
+            res.ok("R-STATE-ORDER", f"{pyf}:order", {"c": f"{SUPPORT_C}:{clines[cfn]}", "mjx": f"{rel}:{loop.lineno}"})
         if need_special:
             sp = py_specials(guard, elem)
             for el, (f, ty) in sorted(nonnum.items()):
                 if el in sp:
                     res.ok("R-STATE-ORDER", f"{pyf}:convert:{el}", {"c_type": ty, "field": f})
                 else:
-                    res.bad("R-STATE-ORDER", f"{pyf}:convert:{el}", rel, guard.lineno, f"{pyf} does not convert {el} "
+                    res.bad("R-STATE-ORDER", f"{pyf}:convert:{el}", rel, getattr(guard, 'lineno', pfn.lineno), f"{pyf} does not convert {el} "
                             f"(C stores d->{f} as {ty} and special-cases it in {cfn})")
         # bounds check on the signature, as in C
         has_bound = any(isinstance(n, ast.Compare) and isinstance(n.ops[0], ast.GtE) and any(
